@@ -212,7 +212,31 @@ func fdTargets() []string {
 	return out
 }
 
+// evalC19Plan: every verdict of a churn plan that rests on a time budget (a reply, a close or a release that did not
+// come in time) is confirmed by running the plan once more with three times the budgets: a hang fails again, a
+// machine that was merely slow does not - that outcome is reported as inconclusive, never as a violation.
 func evalC19Plan(p c19Plan) *Failure {
+	f := evalC19PlanOnce(p, 1)
+	if f == nil || !c19TimeBased(f.Key) {
+		return f
+	}
+	if f2 := evalC19PlanOnce(p, 3); f2 != nil {
+		return f2
+	}
+	return failf("harness|slow-machine", "a time budget was exceeded once (%s) and held when the plan was repeated with three times the budgets: %s", f.Key, f.Detail)
+}
+
+func c19TimeBased(key string) bool {
+	for _, k := range []string{"c19|not-serving", "c19|tls-not-serving", "c19|client-not-closed", "c19|release-blocked-by-stalled-peer", "c19|not-accepting", "c19|registry-leak", "c19|goroutine-leak", "c19|descriptor-leak", "c19|quit-reply"} {
+		if strings.HasPrefix(key, k) {
+			return true
+		}
+	}
+	return false
+}
+
+func evalC19PlanOnce(p c19Plan, scale int) *Failure {
+	sc := time.Duration(scale)
 	lifecycleMu.Lock()
 	defer lifecycleMu.Unlock()
 	pk := sharedPKI()
@@ -260,7 +284,7 @@ func evalC19Plan(p c19Plan) *Failure {
 		mu.Unlock()
 	}
 	expectClosed := func(conn net.Conn, mode string) {
-		conn.SetReadDeadline(time.Now().Add(10 * time.Second))
+		conn.SetReadDeadline(time.Now().Add(10 * time.Second * sc))
 		buf := make([]byte, 4096)
 		for {
 			_, err := conn.Read(buf)
@@ -286,7 +310,7 @@ func evalC19Plan(p c19Plan) *Failure {
 		if isTLS {
 			addr = tlsAddr
 		}
-		raw, err := net.DialTimeout("tcp", addr, 5*time.Second)
+		raw, err := net.DialTimeout("tcp", addr, 5*time.Second*sc)
 		if err != nil {
 			fail(failf("c19|not-accepting", "%s: dial for mode %s: %v", what, spec.Mode, err))
 			return
@@ -296,7 +320,7 @@ func evalC19Plan(p c19Plan) *Failure {
 		switch spec.Mode {
 		case "tls-ok":
 			tc := tls.Client(raw, c09ClientConfig(pk, "right"))
-			tc.SetDeadline(time.Now().Add(5 * time.Second))
+			tc.SetDeadline(time.Now().Add(5 * time.Second * sc))
 			if err := tc.Handshake(); err != nil {
 				fail(failf("c19|tls-not-serving", "%s: valid TLS handshake failed: %v", what, err))
 				return
@@ -304,13 +328,13 @@ func evalC19Plan(p c19Plan) *Failure {
 			conn = tc
 		case "tls-nocert":
 			tc := tls.Client(raw, c09ClientConfig(pk, "none"))
-			tc.SetDeadline(time.Now().Add(5 * time.Second))
+			tc.SetDeadline(time.Now().Add(5 * time.Second * sc))
 			tc.Handshake()
 			expectClosed(tc, spec.Mode)
 			return
 		case "tls-wrongname":
 			tc := tls.Client(raw, c09ClientConfig(pk, "wrongname"))
-			tc.SetDeadline(time.Now().Add(5 * time.Second))
+			tc.SetDeadline(time.Now().Add(5 * time.Second * sc))
 			tc.Handshake()
 			expectClosed(tc, spec.Mode)
 			return
@@ -327,7 +351,7 @@ func evalC19Plan(p c19Plan) *Failure {
 			return
 		}
 		for i := 0; i < spec.Reqs; i++ {
-			if _, err := roundTrip(conn, resp.Cmd("GET", fmt.Sprintf("k%d", i)).Bytes(), 10*time.Second); err != nil {
+			if _, err := roundTrip(conn, resp.Cmd("GET", fmt.Sprintf("k%d", i)).Bytes(), 10*time.Second*sc); err != nil {
 				fail(failf("c19|not-serving", "%s: request %d on a %s connection: %v", what, i, spec.Mode, err))
 				return
 			}
@@ -345,7 +369,7 @@ func evalC19Plan(p c19Plan) *Failure {
 			conn.Write([]byte("*2\r\n$3\r\nGET\r\n"))
 			raw.Close()
 		case "quit":
-			if v, err := roundTrip(conn, resp.Cmd("QUIT").Bytes(), 5*time.Second); err != nil || !v.Equal(resp.S("OK")) {
+			if v, err := roundTrip(conn, resp.Cmd("QUIT").Bytes(), 5*time.Second*sc); err != nil || !v.Equal(resp.S("OK")) {
 				fail(failf("c19|quit-reply", "%s: QUIT answered %v, %v", what, v, err))
 				return
 			}
@@ -356,7 +380,7 @@ func evalC19Plan(p c19Plan) *Failure {
 		case "quit-hold", "malformed-hold":
 			// the server ends the connection; the client keeps its own end open: the server side must be released anyway
 			if spec.Mode == "quit-hold" {
-				if v, err := roundTrip(conn, resp.Cmd("QUIT").Bytes(), 10*time.Second); err != nil || !v.Equal(resp.S("OK")) {
+				if v, err := roundTrip(conn, resp.Cmd("QUIT").Bytes(), 10*time.Second*sc); err != nil || !v.Equal(resp.S("OK")) {
 					fail(failf("c19|quit-reply", "%s: QUIT answered %v, %v", what, v, err))
 					return
 				}
@@ -370,7 +394,7 @@ func evalC19Plan(p c19Plan) *Failure {
 			// ask for far more reply data than the socket buffers hold and never read it; stay connected until the
 			// other connections of the cycle have ended and have been released, then reset
 			req := resp.Cmd("GET", "big").Bytes()
-			conn.SetWriteDeadline(time.Now().Add(2 * time.Second))
+			conn.SetWriteDeadline(time.Now().Add(2 * time.Second * sc))
 			for i := 0; i < 1500; i++ {
 				if _, err := conn.Write(req); err != nil {
 					break
@@ -454,7 +478,7 @@ func evalC19Plan(p c19Plan) *Failure {
 			// "-hold" clients keep their end open after the server ended the connection: resources must be
 			// released regardless - the registry may hold only the non-reading stallers (and idle connections)
 			stallerReady.Wait()
-			deadline := time.Now().Add(settleBudget)
+			deadline := time.Now().Add(settleBudget * sc)
 			for {
 				// one reading per iteration: a connection whose client has long finished may be accepted (and
 				// registered for a moment) only now, so the count can still go up before it settles
@@ -479,7 +503,7 @@ func evalC19Plan(p c19Plan) *Failure {
 		if p.Stop && cy == cycles-1 {
 			// the churn is over; wait until the idle connections have done their requests and are registered, then stop the server under them
 			idleReady.Wait()
-			deadline := time.Now().Add(5 * time.Second)
+			deadline := time.Now().Add(5 * time.Second * sc)
 			for len(srv.Conns()) < nIdle && time.Now().Before(deadline) {
 				time.Sleep(time.Millisecond)
 			}
@@ -490,8 +514,8 @@ func evalC19Plan(p c19Plan) *Failure {
 				srv.SetTLSPort(0)
 			case "config-port0", "config-tlsport0", "config-port-text":
 				args := map[string][]string{"config-port0": {"CONFIG", "SET", "port", "0"}, "config-tlsport0": {"CONFIG", "SET", "tls-port", "0"}, "config-port-text": {"CONFIG", "SET", "port", "off"}}[p.Reconfig]
-				if cc, err := net.DialTimeout("tcp", plainAddr, 5*time.Second); err == nil {
-					roundTrip(cc, resp.Cmd(args...).Bytes(), 5*time.Second)
+				if cc, err := net.DialTimeout("tcp", plainAddr, 5*time.Second*sc); err == nil {
+					roundTrip(cc, resp.Cmd(args...).Bytes(), 5*time.Second*sc)
 					cc.Close()
 				}
 			}
@@ -501,7 +525,7 @@ func evalC19Plan(p c19Plan) *Failure {
 			var err error
 			select {
 			case err = <-stopErr:
-			case <-time.After(30 * time.Second):
+			case <-time.After(30 * time.Second * sc):
 				stopped = true // the cleanup must not call the hanging Stop again
 				close(idle)
 				return failf("c19|stop-hangs", "%s: Stop did not return within 30s", what)
@@ -531,7 +555,7 @@ func evalC19Plan(p c19Plan) *Failure {
 	if stopped {
 		wantFD, wantG = fd0, 0
 	}
-	deadline := time.Now().Add(settleBudget)
+	deadline := time.Now().Add(settleBudget * sc)
 	for {
 		fds, conns, gs := countFDs(), len(srv.Conns()), sched.ServerGoroutines()
 		if fds <= wantFD && conns == 0 && len(gs) == wantG {
